@@ -1501,7 +1501,7 @@ def QuietRun : List Block → App → CSet → Prop
     list, and after every block CometBFT's set is the chain's own -/
 theorem quiet_run (bs : List Block) : ∀ (s : App) (c : CSet), G s c → QuietRun bs s c →
     (runFrom genEnv s c bs).2 = .done ∧ (runFrom genEnv s c bs).1.length = bs.length ∧
-    ∀ st ∈ (runFrom genEnv s c bs).1, Agree st.comet st.app := by
+    ∀ st ∈ (runFrom genEnv s c bs).1, Agree st.comet st.app ∧ G st.app st.comet := by
   induction bs with
   | nil => intro s c _ _; simp [runFrom]
   | cons b bs ih =>
@@ -1513,8 +1513,26 @@ theorem quiet_run (bs : List Block) : ∀ (s : App) (c : CSet), G s c → QuietR
     refine ⟨ih'.1, by simp [ih'.2.1], ?_⟩
     intro st hst
     rcases List.mem_cons.mp hst with e | e
-    · rw [e]; exact hag
+    · rw [e]; exact ⟨hag, g'⟩
     · exact ih'.2.2 st e
+
+/-- identities are unique across the validator records and the pending applications of a `G` state: no two of them
+    share an operator address or a consensus key -/
+theorem G_identities (s : App) (c : CSet) (g : G s c) :
+    (∀ v1 ∈ s.vals, ∀ v2 ∈ s.vals, (v1.op = v2.op ∨ v1.key = v2.key) → v1 = v2) ∧
+    (s.pending.map (·.op)).Nodup ∧ (s.pending.map (·.key)).Nodup ∧
+    (∀ p ∈ s.pending, ∀ v ∈ s.vals, p.op ≠ v.op ∧ p.key ≠ v.key) := by
+  refine ⟨?_, g.pend.ops, g.pend.keys, ?_⟩
+  · intro v1 h1 v2 h2 h
+    rcases h with h | h
+    · exact sorted_op_inj s.vals g.sorted v1 h1 v2 h2 h
+    · exact g.keys v1 h1 v2 h2 h
+  · intro p hp v hv
+    obtain ⟨f1, f2, _⟩ := g.pend.fresh p hp
+    refine ⟨?_, fun e => f2 v hv e.symm⟩
+    intro e
+    have := mem_vals_getVal s g.sorted v hv
+    rw [← e, f1] at this; cases this
 
 /-! ### genesis: InitChain of every well-formed genesis ends in `G` -/
 
@@ -1797,10 +1815,10 @@ def QuietHistory (g : Genesis) (bs : List Block) : Prop :=
     every block -/
 theorem quiet_history (g : Genesis) (hw : g.wf = true) (bs : List Block) (hq : QuietHistory g bs) :
     ∃ first steps, run genEnv g bs = some (first, steps, RunEnd.done) ∧ steps.length = bs.length ∧
-      Agree first.comet first.app ∧ ∀ st ∈ steps, Agree st.comet st.app := by
+      Agree first.comet first.app ∧ G first.app first.comet ∧ ∀ st ∈ steps, Agree st.comet st.app ∧ G st.app st.comet := by
   obtain ⟨u, s, c, hi, hc, hag, hg⟩ := genesis_G g hw
   obtain ⟨h1, h2, h3⟩ := quiet_run bs s c hg (hq u s c hi hc)
-  refine ⟨⟨⟨[], u⟩, s, c⟩, (runFrom genEnv s c bs).1, ?_, h2, hag, h3⟩
+  refine ⟨⟨⟨[], u⟩, s, c⟩, (runFrom genEnv s c bs).1, ?_, h2, hag, hg, h3⟩
   unfold run
   rw [hi]
   simp only [hc]
